@@ -29,6 +29,14 @@ CLAIMS = {
   text="Lean 4 theorems (flat claims, ideal salted hash): for every claim list, every SD selection and every sub-list of disclosures presented the verifier outputs exactly visible ++ chosen (C18_exact, premise discharged by issue_nodup), every output claim is visible or chosen (C18_output_subset), an uncommitted / altered / duplicated disclosure is rejected (C18_uncommitted_rejected, C18_altered_rejected, C18_duplicate_rejected). The general nested model (Model.lean: discloseClaimValue with _sd levels, recursive disclosures, array elements, cleanup, both verifier stages, holder binding) is tied to the code by correspondence: real issuer.New (v2/v5, structured, non-SD, recursive, always-include, decoys, 3 hash algs) -> holder -> verifier.Parse on generated claim trees x subsets x tampering x binding variants; the model predicts the verifier's outcome exactly, and a Lean oracle checks the output against the ORIGINAL claims restricted to visible + chosen (project) and that tampered / unverifiable presentations are rejected",
   note="trusted: Lean kernel; allowed axioms; SHA-2 / Ed25519 ideal (digests replaced by disclosure indices by the harness); the nested model has no general exactness theorem yet (flat case proved); json.Number normalisation (C18-F3); open finding C18-F1 (empty arrays / nulls)",
   technique="Lean 4 proof (flat) + executable nested model correspondence + claims-level oracle"),
+ "C01": dict(
+  text="Lean 4 theorems over a symbolic (ideal-crypto) envelope model with every dispatch of the unpack path explicit: for every payload, every recipient list of any length, authcrypt and anoncrypt, a key ring whose first owned key in the list is r unpacks exactly (payload, true sender | none, r) (C01_roundtrip, C01_every_recipient) and a key ring holding no recipient key fails (C01_nonrecipient). Tie: correspondence of the real packers (JWE authcrypt/anoncrypt over X25519 and P-256/384/521 with 6 content encryptions, legacy authcrypt/anoncrypt; did:key and DID-document kid styles; compact and JSON serialisation by recipient count) with one KMS per party - sender, every recipient and an outsider unpack - against the outcome the model predicts, including the two configuration classes in which Pack itself refuses",
+  note="trusted: Lean kernel; allowed axioms; cryptographic primitives and their libraries are ideal (Dolev-Yao terms); PKCS#7 / CBC-HMAC framing and base64 are exercised by the payload-size sweep, not proved",
+  technique="Lean 4 proof over symbolic crypto + multi-KMS pack/unpack correspondence"),
+ "C02": dict(
+  text="Lean 4 theorems over the same symbolic model: any envelope assembled around the original ciphertext yields the original payload or fails (C02_same_cipher_same_payload), any change of the associated data fails (C02_aad_change_fails), an accepted envelope's reported sender is the protected skid and the used key-encryption key is the 1PU term over exactly that sender (accepted_shape), hence no envelope an outsider can build is attributed to a key it does not hold (C02_no_reattribution); the repaired defect C02-F1 as decide-checked before/after examples. Tie: mutation correspondence on real envelopes (character flips / truncations in every base64 field, protected-header edits, cross-envelope splices, recipient drop/dup/swap, re-serialisation, unprotected headers), every party unpacking original and mutant: fail-or-same for every party, fail for everybody when an authenticated field's bytes changed; the baseline must equal the C01 model's prediction",
+  note="trusted: as C01; encoding/base64 decides 'decoded bytes changed'; the model does not predict fail-vs-same per unauthenticated mutation; KDF byte layout (kdfWithTag) is not compared byte-exactly yet",
+  technique="Lean 4 proof over symbolic crypto + mutation correspondence with fail-or-same oracle"),
 }
 
 def main():
